@@ -13,7 +13,7 @@ every way an exception can leave the block of opcode `o` (and the `catch (...)` 
 `executeCommandInternal<true>`), the net height change and the operand bytes consumed at that moment.
 
 Transcribed from the source after the repairs a52b745 (loadTop), e5a4ad9 (OP_STORE_OWNER), 8a45e3b
-(OP_LOAD_STORE_SELF_VAR), 4d71043 (OP_STORE_FIELD_REF), 94b2e98 (OP_STORE_FIELD); `Gen.caseVariant` /
+(OP_LOAD_STORE_SELF_VAR), 4d71043 + 8694c74 (OP_STORE_FIELD_REF), 94b2e98 (OP_STORE_FIELD); `Gen.caseVariant` /
 `Gen.helperVariant_*` (regenerated fingerprints) say whether each block still has the transcribed text.
 -/
 namespace Morfuse.Bytecode
@@ -79,7 +79,8 @@ def vmErrPaths : Opcode → List ErrPath
   | .OP_STORE_FIELD_REF =>
     [ ⟨0, false, some fieldBytes⟩,      -- the cast throws (NIL, integer …): the catch steps over the operands
       ⟨0, false, some fieldBytes⟩,      -- NULL listener: peek + skipField
-      ⟨0, false, some fieldBytes⟩ ]     -- storeTop<true> throws after reading them
+      ⟨0, false, some fieldBytes⟩,      -- storeTop<true> throws after reading them
+      ⟨0, false, some fieldBytes⟩ ]     -- the field is provided by a getter (8694c74): "Cannot assign to an element of a read-only field"
   -- try { cast; NULL: peek; storeTop<true> } catch { skipField unless storeTop read them; top.Clear() }
   | .OP_STORE_FIELD =>
     [ ⟨0, false, some fieldBytes⟩, ⟨0, false, some fieldBytes⟩, ⟨0, false, some fieldBytes⟩ ]
